@@ -140,20 +140,22 @@ def closeNodeStart (S : Schema) : Nat → Node → Int → FM Node
 def invalidMarks (S : Schema) (ty : TypeId) (rest : List Node) : Bool :=
   rest.any (fun c => !(S.nodeType ty).allowsMarks c.marks)
 
+/-- `content_after_fits` once `node` and `index` are read off the position -/
+def contentAfterFitsAt (S : Schema) (node : Node) (index : Nat) (ty : TypeId) (st : Option Nat) :
+    FM (Option (List Node)) :=
+  if index == node.kids.length && !S.compatibleContent ty (S.tyOf node) then pure none
+  else do
+    let q ← liftRaise st
+    let fit ← fillOpt S (S.dfa ty) q (S.types (node.kids.drop index)) true
+    match fit with
+    | none => pure none
+    | some f => if invalidMarks S ty (node.kids.drop index) then pure none else pure (some f)
+
 /-- `content_after_fits(to, depth, type, match, open)` -/
 def contentAfterFits (S : Schema) (rt : RPos) (depth : Nat) (ty : TypeId) (st : Option Nat) (open_ : Bool) :
     FM (Option (List Node)) :=
   if rt.depth < depth then throw .raises
-  else
-    let node := rt.node depth
-    let index := if open_ then rt.indexAfter depth else rt.index depth
-    if index == node.kids.length && !S.compatibleContent ty (S.tyOf node) then pure none
-    else do
-      let q ← liftRaise st
-      let fit ← fillOpt S (S.dfa ty) q (S.types (node.kids.drop index)) true
-      match fit with
-      | none => pure none
-      | some f => if invalidMarks S ty (node.kids.drop index) then pure none else pure (some f)
+  else contentAfterFitsAt S (rt.node depth) (if open_ then rt.indexAfter depth else rt.index depth) ty st
 
 /-! ### frontier operations -/
 
@@ -369,6 +371,12 @@ def placeRest (slice : Slice) (sliceDepth taken : Nat) (toEnd : Bool) (openEndCo
     let c ← dropFromFragment slice.content (sliceDepth - 1) 1
     pure ⟨c, sliceDepth - 1, if openEndCount < 0 then slice.openEnd else sliceDepth - 1⟩
 
+/-- `fragment = parent.content if parent else slice.content` -/
+def Fittable.fragment (fit : Fittable) (slice : Slice) : List Node :=
+  match fit.parent with
+  | some p => p.kids
+  | none => slice.content
+
 /-- `place_nodes(fittable)` -/
 def placeNodes (S : Schema) (st : FitState) (fit : Fittable) : FM FitState := do
   let c1 ← closeMany S (st.frontier.length - 1 - fit.frontierDepth) st.frontier st.placed
@@ -376,9 +384,7 @@ def placeNodes (S : Schema) (st : FitState) (fit : Fittable) : FM FitState := do
   let fr := c2.1
   let placed := c2.2
   let slice := st.unplaced
-  let fragment := match fit.parent with
-    | some p => p.kids
-    | none => slice.content
+  let fragment := fit.fragment slice
   let openStart := slice.openStart - fit.sliceDepth
   let item ← getItem fr fit.frontierDepth
   let q0 ← getSt item
